@@ -1158,6 +1158,11 @@ def FIBER(
     def total_power(A):  # instantaneous power summed over the polarisations present (A is (N,) or (2, N))
         return np.abs(A) ** 2 if A.ndim == 1 else (np.abs(A) ** 2).sum(axis=0)
 
+    if gamma != 0 and total_power(A).max() == 0:  # a field without power stays dark (and offers no power to derive a step size from)
+        output = optical_signal(A, input.noise)
+        output.execution_time = toc()
+        return output
+
     h = (
         length
         if (beta_2 == 0 and beta_3 == 0) or gamma == 0
